@@ -30,7 +30,10 @@ def tier_v(pid, replays_dir):
         locked = lock.get(r['name'])
         names = [o['name'] for o in r['obligations']]
         if r['status'] == 'engine-error':
-            raise common.MachineryError(f"pyvc engine error in {r['name']}: {r.get('reason')}")
+            # the engine (or a contract lambda) failed on this source: never a verdict about the code. Reported; the run exits 3 unless a
+            # real violation is found elsewhere.
+            notes.append(f"ENGINE-ERROR {r['name']}: {str(r.get('reason'))[-400:]}")
+            continue
         if r['status'] in ('out-of-reach', 'vacuous'):
             notes.append(f"OUT-OF-REACH {r['name']}: {r['status']}: {r.get('reason')} (not counted as verified; bounded twin decides)")
             continue
@@ -116,7 +119,9 @@ def main(argv=None):
     print(f"{pid}: tier-V {n_dis}/{n_obl} obligations discharged over {len(recs)} functions; "
           f"bounded: {bounded['summary'] if bounded else 'none'}; violations={len(real)} known={n_known} "
           f"wall={time.time() - t0:.1f}s")
-    return 1 if real else 0
+    if real: return 1
+    if any(n.startswith('ENGINE-ERROR') for n in notes): return 3
+    return 0
 
 
 if __name__ == '__main__':
